@@ -14,6 +14,7 @@ META = {
     'design_ref': 'DESIGN.md section 6, C02',
 }
 LEAN_MODULES = ['KawinV.Props.C02']
+RUN_ERRORS = []
 MONITORED = ['RK4 glue: the accepted update uses the corrected face fluxes of the LAST stage evaluation only (observed; the budget theorem covers any face fluxes)']
 ASSUMPTIONS = ['stored distributions are non-negative at the start of a step (proved: trunc_nonneg)']
 TRUSTED = ['run-time wrappers of tools/lib/kwnruns.py']
@@ -22,9 +23,13 @@ TRUSTED = ['run-time wrappers of tools/lib/kwnruns.py']
 def runs(ctx):
     out = []
     def go(tag, model, times, solver, cap=None):
+        import traceback
         log = kwnruns.instrument(model)
-        for t in times:
-            kwnruns.run(model, t, solver, max_steps=cap)
+        try:
+            for t in times:
+                kwnruns.run(model, t, solver, max_steps=cap)
+        except Exception:
+            RUN_ERRORS.append((tag, traceback.format_exc()))
         out.append((tag, model, log, solver))
     # mild perturbations only: the configuration must precipitate (and re-mesh) within the simulated time
     T = 723.15 - ctx.rng.uniform(0, 4)
@@ -100,15 +105,22 @@ def corr(ctx, oracle_only=False):
     res = Result()
     res.rule = ('every accepted step of real Al-Zr (and Ni-Cr-Al, thorough) runs, Euler and RK4, incl. a grid configured to extend and re-mesh, '
                 'plus synthetic re-mesh operations; non-trivial = populated distribution with non-zero growth; distinct = (run, step)')
-    synthetic_remesh(ctx, res)
-    synthetic_multiphase(ctx, res)
+    vlib.guarded(res, 'synthetic-remesh', {}, synthetic_remesh, ctx, res)
+    vlib.guarded(res, 'synthetic-multiphase', {}, synthetic_multiphase, ctx, res)
     lines, refs = [], []
-    for tag, model, log, solver in runs(ctx):
+    ok, runs_ = vlib.guarded(res, 'real-run', {}, runs, ctx)
+    for tag, tb in RUN_ERRORS:
+        if vlib.in_repo_traceback(tb):
+            res.violate('raises:real-run', 'a real run crashed inside the implementation', {'run': tag, 'traceback': tb[-1500:]})
+    del RUN_ERRORS[:]
+    for tag, model, log, solver in (runs_ if ok else []):
         pd = model.pData
         posts = log.post
         mbs = [r for r in log.mb if r['in_post']]
         if not (len(posts) == len(mbs) == len(log.upd) == pd.n):
-            res.violate('history-length', 'steps/logs misaligned', {'run': tag}, [len(posts), len(mbs), len(log.upd), pd.n]); continue
+            if not any(v['key'] == 'raises:real-run' and v['case'].get('run') == tag for v in res.violations):
+                res.violate('history-length', 'steps/logs misaligned', {'run': tag}, [len(posts), len(mbs), len(log.upd), pd.n])
+            continue
         res.traces += 1
         for k in range(pd.n):          # step k -> k+1
             po, mb, up = posts[k], mbs[k], log.upd[k]
@@ -189,6 +201,7 @@ def corr(ctx, oracle_only=False):
                 tie = np.any(np.abs(np.asarray(mp) - 1) < 1e-6)
                 if tie: res.near_tie_skipped += 1
                 elif not vlib.all_close(ms, tr, 1e-9, sc): res.disagree('stored PSD (truncation)', case, tr[:5].tolist(), ms[:5])
+    vlib.finish_guard(res)
     return res
 
 
